@@ -54,9 +54,10 @@ def sweeps(tier, rng):
     # every single code point (sampled in the quick tier), surrogates excluded
     cps = list(range(0, 0x800 if tier == 'quick' else 0x3000))
     pool = [c for c in range(0x800, 0x110000) if not 0xD800 <= c <= 0xDFFF]
-    cps += rng.sample(pool, 3000 if tier == 'quick' else 150000)
+    cps += rng.sample(pool, 3000 if tier == 'quick' else 60000)
     cvals = [text(chr(c)) for c in cps if not 0xD800 <= c <= 0xDFFF]
-    out.append(sweep(cvals, [['html_quote']], forms=('entity',)))
+    for lo in range(0, len(cvals), 9000):        # one TLC run per 9000 values: a set literal of 10^5 records takes SANY an hour
+        out.append(sweep(cvals[lo:lo + 9000], [['html_quote']], forms=('entity',)))
     out.append(sweep(cvals[::7], [[]], fmts=('', 'html-quote'), forms=('name',)))
     # values that are not strings: inserted as their str() form, which is escaped like any text
     ov = [strobj(x) for x in ('R&D', "<0.05 'p'", 'a"b', 'x>y & z', 'plain', "it's", '<<>>', 'A&B<C>"D\'E')]
@@ -98,7 +99,7 @@ def main(tier):
                                'replacements); Python codecs are trusted for the bytes variants'],
                   rule='all strings up to length 3 (4 thorough, sampled) over {& < > " \' a e-acute emoji} x {entity, '
                        'html_quote alone (name / expression), fmt=html-quote, html_quote with size/null, plain}; bytes in '
-                       'utf-8 / latin-1; single code points (all below U+0800 resp. U+3000 and a random sample of the rest); '
+                       'utf-8 / latin-1; single code points (all below U+0800 resp. U+3000 and a random sample of 3000 resp. 60000 of the rest); '
                        'random longer strings; specials next to line / control separators; the forms after a tainted insertion in the same block list')
 
 
